@@ -437,6 +437,8 @@ def main(argv):
             e = led.setdefault(o["name"], {"status": "discharged", "props": o["props"], "count": 0,
                                            "max_time_s": 0.0})
             e["count"] += 1
+            if o.get("time_s", 0.0) >= e["max_time_s"] and o.get("backend") not in (None, "z3-simplify", "frames"):
+                e["backend"] = o.get("backend")      # the stage that discharged the slowest instance
             e["max_time_s"] = max(e["max_time_s"], o.get("time_s", 0.0))
             if o["status"] != "discharged":
                 e["status"] = o["status"]
